@@ -239,12 +239,18 @@ def run(tier, seed):
         "float64 vs exact rationals: relative tolerance 1e-9",
     ]
     return rep.finish("proof", ob, trusted_base=core.TRUSTED_BASE_COMMON + [
-        "Model/CubeCounts.v is hand-written; tied to matrix/cubemeasure.py _*UnconditionalCubeCounts, "
-        "matrix/measure.py _ColumnIndex and cube.py counts_with_missings by this correspondence run only"])
+        "Model/CubeCounts.v is hand-written; tied to matrix/measure.py _ColumnIndex and cube.py "
+        "counts_with_missings by this correspondence run only; the four _*UnconditionalCubeCounts.baseline "
+        "variants (through the factory's conditional chain), their constructor argument, _slice_idx_expr and "
+        "the counts extractors are ALSO tied to the text of matrix/cubemeasure.py by the C16_gen_* obligations "
+        "(Proofs/GenAgreeBaseline.v, GenAgreeCounts.v)",
+        core.TRUSTED_BASE_TRANSLATOR])
 
 
 def replay(path):
     d = json.load(open(path))
+    if d["violation"].get("kind") in core.OBLIGATION_KINDS:  # a broken obligation, no input to re-run
+        return core.replay_obligations(PID, d)
     case = d["violation"]["case"]
     cu.finish_case(case)
     if case.get("subtotals"):
